@@ -312,15 +312,14 @@ def rule_detrait(toks, state):
 
 
 def rule_debug_assert(toks):
-    """X7: debug_assert!(e [, msg..]) -> assert(e)"""
+    """X7: debug_assert!(e [, msg..]) -> { let vx_dbg: bool = e; assert(vx_dbg); }
+    (the condition is evaluated as executable code, as in a debug build, and must be provably true)"""
     out, fired, i = [], 0, 0
     while i < len(toks):
         t = toks[i]
         if t.text == "debug_assert" and toks[i + 1].text == "!" and toks[i + 2].text == "(":
             j = rtok.match_close(toks, i + 2)
-            # first top-level comma ends the condition
-            d, k = 0, i + 3
-            end = j
+            k, end = i + 3, j
             while k < j:
                 if toks[k].text in ("(", "[", "{"):
                     k = rtok.match_close(toks, k)
@@ -328,10 +327,12 @@ def rule_debug_assert(toks):
                     end = k
                     break
                 k += 1
-            a = T("assert", t, "ident")
-            op = T("("); op.trivia = ""
-            cl = T(")"); cl.trivia = ""
-            out.extend([a, op] + toks[i + 3:end] + [cl])
+            pre, _ = rtok.tokenize("{ let vx_dbg: bool =", "rule")
+            post, _ = rtok.tokenize("; assert(vx_dbg); }", "rule")
+            pre = [Tok(x.kind, x.text, x.trivia, t.line, "rule") for x in pre]
+            post = [Tok(x.kind, x.text, x.trivia, t.line, "rule") for x in post]
+            pre[0].trivia = t.trivia
+            out.extend(pre + toks[i + 3:end] + post)
             i = j + 1
             fired += 1
             continue
